@@ -60,6 +60,13 @@ pub fn lib_source(spec: &Value) -> String {
             t = tag
         );
     }
+    if spec["spo"].as_bool().unwrap_or(false) {
+        // a library one of whose procedures ASSIGNS a name the library imported (an error by the
+        // report: an implementation may refuse the library when it loads it, refuse the
+        // assignment when it happens, or let it change that library's own view) - never
+        // anybody else's view
+        return "(define-library (lib spo)\n  (import (scheme base))\n  (export spoil! spo-plus)\n  (begin (define (spoil!) (set! + -) 0) (define (spo-plus x) (+ x 1))))\n".to_string();
+    }
     if spec["ovr"].as_bool().unwrap_or(false) {
         // a library that defines, and exports, a name it also imported, and defines a name of
         // its own again in a later block: what it exports are its own, final definitions,
@@ -126,10 +133,7 @@ pub fn lib_source(spec: &Value) -> String {
     }
     // a library that assigns one of ITS imported names (an error by the report; an
     // implementation may refuse it or let it change that library's own view) — never anybody else's
-    if spec["spoiler"].as_bool().unwrap_or(false) {
-        body.push(format!("(define (spoil-{}!) (set! + -) 0)", s));
-        exports.push(format!("spoil-{}!", s));
-    }
+
     // `twice` is a private macro in some libraries and a private procedure in the others:
     // what one library file defines as syntax is nobody else's business
     if spec["macro"].as_bool().unwrap_or(false) {
@@ -552,7 +556,6 @@ fn gen_lib(rng: &mut Rng, short: &str, imports: Vec<String>, health: &str, allow
         "reexport": rng.chance(1, 2),
         "collide": rng.chance(1, 2),
         "macro": rng.chance(1, 2),
-        "spoiler": rng.chance(1, 3),
         "dep_style": rng.below(4),
         "fault": fault,
         "fault_kind": fault_kind,
@@ -563,7 +566,6 @@ fn gen_lib(rng: &mut Rng, short: &str, imports: Vec<String>, health: &str, allow
         "decl_shape": rng.below(6),
         "twins": rng.chance(1, 3),
         "body_expr": rng.chance(1, 3),
-        "load_effect": rng.chance(1, 3),
     })
 }
 
@@ -583,6 +585,9 @@ fn external_names(spec: &Value) -> Vec<(String, String)> {
     if spec["lookalike"].as_bool().unwrap_or(false) {
         let tag = spec["tag"].as_str().unwrap_or("uv");
         return vec![(format!("{}-next!", tag), "next".to_string()), (format!("{}-look", tag), "look".to_string())];
+    }
+    if spec["spo"].as_bool().unwrap_or(false) {
+        return vec![("spoil!".to_string(), "spoil".to_string()), ("spo-plus".to_string(), "use-plus".to_string())];
     }
     if spec["ovr"].as_bool().unwrap_or(false) {
         return vec![
@@ -615,9 +620,7 @@ fn external_names(spec: &Value) -> Vec<(String, String)> {
     }
     v.push((format!("const-{}", s), "const".to_string()));
     v.push((format!("use-twice-{}", s), "use-helper".to_string()));
-    if spec["spoiler"].as_bool().unwrap_or(false) {
-        v.push((format!("spoil-{}!", s), "spoil".to_string()));
-    }
+
     if spec["body_expr"].as_bool().unwrap_or(false) {
         v.push((format!("snap-{}", s), "const".to_string()));
     }
@@ -659,6 +662,17 @@ pub fn generate_c13(seed: u64, quick: bool) -> Value {
             }
         }
         libs.push(gen_lib(&mut rng, &shorts[i], imports, "healthy", true));
+    }
+    // at most ONE library of a world has a body with an effect on another library while it is
+    // loaded (the order in which independent libraries are loaded is not fixed by anything)
+    {
+        let with_deps: Vec<usize> = (0..libs.len())
+            .filter(|i| libs[*i]["imports"].as_array().map(|a| !a.is_empty()).unwrap_or(false))
+            .collect();
+        if !with_deps.is_empty() && rng.chance(1, 2) {
+            let i = *rng.pick(&with_deps);
+            libs[i]["load_effect"] = json!(true);
+        }
     }
     if rng.chance(1, 2) {
         libs.push(json!({
@@ -707,6 +721,17 @@ pub fn generate_c13(seed: u64, quick: bool) -> Value {
             ops.push(json!({"op": "eval", "k": "import-lookalike-name", "t": format!("(import {})", key_of(spec["short"].as_str().unwrap()))}));
             libs.push(spec);
         }
+    }
+    if rng.chance(1, 3) {
+        let spec = json!({
+            "short": "spo", "spo": true, "imports": [], "health": "healthy",
+            "delivery": if rng.chance(1, 3) { "registered" } else { "file" },
+        });
+        for (name, kind) in external_names(&spec) {
+            visible.insert(name, Visible { lib: "spo".into(), kind });
+        }
+        libs.push(spec);
+        ops.push(json!({"op": "eval", "k": "import-overriding-library", "t": "(import (lib spo))"}));
     }
     if rng.chance(1, 4) {
         let spec = json!({
